@@ -65,24 +65,14 @@ Definition sres_eqb (a b : sres) : bool :=
   match a, b with SOk, SOk | SErrValue, SErrValue | SErrType, SErrType | SErrRuntime, SErrRuntime | SErrOther, SErrOther => true
   | _, _ => false end.
 
-(* two PulseStorage instances over one backend *)
-Record hstate := mkH { t0 : list (string * pt); t1 : list (string * pt); hbe : backend }.
-
-Definition run_op (roots : list pt) (h : hstate) (op : nat * nat) : hstate * sres :=
-  match nth_error roots (snd op) with
-  | None => (h, SErrOther)
-  | Some p =>
-      let s := mkS (if Nat.eqb (fst op) 0 then t0 h else t1 h) (hbe h) in
-      match store s p with
-      | Ok s' => ((if Nat.eqb (fst op) 0 then mkH (s_temp s') (t1 h) (s_be s') else mkH (t0 h) (s_temp s') (s_be s')), SOk)
-      | Err e => (h, sres_of (@Err unit e))
-      end
-  end.
-
-Fixpoint run_ops (roots : list pt) (h : hstate) (ops : list (nat * nat)) : hstate * list sres :=
+(* two PulseStorage instances over one backend: Model.hrun; operations name their root by position *)
+Fixpoint resolve_ops (roots : list pt) (ops : list (nat * nat)) : option (list (nat * pt)) :=
   match ops with
-  | [] => (h, [])
-  | op :: r => let (h1, o) := run_op roots h op in let (h2, os) := run_ops roots h1 r in (h2, o :: os)
+  | [] => Some []
+  | op :: r => match nth_error roots (snd op), resolve_ops roots r with
+               | Some p, Some l => Some ((fst op, p) :: l)
+               | _, _ => None
+               end
   end.
 
 Definition be_eqb (a b : backend) : bool :=
@@ -119,12 +109,16 @@ Definition lobs_corr (m o : lobs) : bool :=
 Definition check_corr (c : case) : bool :=
   match c with
   | CStore roots ops impl_res impl_be impl_loads =>
-      let '(h, res) := run_ops roots (mkH [] [] []) ops in
-      list_eqb sres_eqb res impl_res
+      match resolve_ops roots ops with
+      | None => false
+      | Some mops =>
+      let '(h, res) := hrun (empty_h []) mops in
+      list_eqb sres_eqb (map sres_of res) impl_res
       && be_eqb (hbe h) impl_be
       && forallb (fun il => match nth_error roots (fst il) with
                             | Some p => lobs_corr (model_load (hbe h) p) (snd il)
                             | None => false end) impl_loads
+      end
   | CDoc be i impl_ok impl_redoc =>
       match load LOAD_FUEL be fresh_l i with
       | Ok (p, _) =>
